@@ -88,14 +88,14 @@ def rndNat (m : Nat) : Nat :=
 def rnd53 (x : Int) : Int :=
   if x < 0 then -(rndNat x.natAbs : Int) else (rndNat x.natAbs : Int)
 
-/-- Doubles are finite below 2^1024; `float(int)` and `int(float)` raise
-`OverflowError` beyond. -/
-def dblMax : Int := 2 ^ 1024
+/-- Doubles are finite below 2^1024 (`float(int)` and `int(float)` raise `OverflowError`
+beyond): a natural number is below 2^1024 iff its `log2` is below 1024. -/
+def finiteDouble (m : Nat) : Bool := decide (m.log2 < 1024)
 
 /-- `int -> float` (PyLong_AsDouble): rounded value or `OverflowError`. -/
 def toDouble (x : Int) : Except String Int :=
   let r := rnd53 x
-  if r.natAbs < dblMax.natAbs then .ok r else .error "OverflowError"
+  if finiteDouble r.natAbs then .ok r else .error "OverflowError"
 
 /-- `int(time * factor)` for a float `factor` that is an exactly representable
 positive integer. -/
